@@ -193,6 +193,17 @@ CLAIMED['C14'] = (
     'every obligation reports EXPLORED-NO-VIOLATION; Decimal <-> float text conversion is exercised on realised values only; '
     'known finding K-C14-float-infinity-non-standard-json is reported, not hidden',
     'symbolic execution of the real code (CrossHair primitives + z3) with explicit region splits, concrete replay')
+CLAIMED['C17'] = (
+    'Bounded symbolic differential model checking of forward-reference resolution (register_forward_ref, '
+    'BaseParser.resolve_forward_refs at first parse, Rule / LogicalType / ParserField.resolve_forward_refs, ForwardRef handling in '
+    'the transformer): three systems of declarations are generated as module source in a forward spelling (strings, names '
+    'defined later, postponed evaluation, mutual recursion in either order, the same name in several constrained annotations, '
+    'decorated function parameters / return, function-local classes created twice) and a direct spelling (or a finite unrolling), '
+    'executed inside the path under fresh names; the first-use order (none / A / B / an invalid parse first) and the inputs '
+    '(which field carries the reference, nesting shape, unbounded solver integers and convertible / invalid strings) are '
+    'solver-chosen; outcomes must be equal from the first call on.',
+    'three systems; nesting depth <= 3; typing internals run concretely',
+    'symbolic execution of the real code (CrossHair primitives + z3), differential between two generated declarations, path-tree exhaustion, concrete replay')
 NOT_APPLICABLE = {}
 
 def main():
